@@ -86,8 +86,24 @@ thread_local! {
     static SUSPECTS: std::cell::RefCell<Vec<String>> = std::cell::RefCell::new(vec![]);
 }
 
+thread_local! {
+    /// contents of writes that were answered with an error: if one of them is served, that is never the open finding
+    static REFUSED: std::cell::RefCell<std::collections::BTreeSet<String>> = std::cell::RefCell::new(Default::default());
+}
+
 fn suspect(c: impl Into<String>) {
     SUSPECTS.with(|s| s.borrow_mut().push(c.into()));
+}
+
+/// open finding (DESIGN.md 8.4): after the node that was leader had been frozen (SIGSTOP) and thawed, the nodes
+/// disagree about a key that was written after the freeze
+pub const KNOWN_FROZEN: &str = "C06/divergence-on-a-key-written-after-the-leader-was-frozen";
+
+thread_local! {
+    /// keys (0..3, 99 = sentinel keys) a violation is about
+    static DISPUTED_KEYS: std::cell::RefCell<Vec<usize>> = std::cell::RefCell::new(vec![]);
+    /// keys written (any outcome) after a leader had been frozen; 99 = a sentinel write
+    static WRITTEN_AFTER_FREEZE: std::cell::RefCell<std::collections::BTreeSet<usize>> = std::cell::RefCell::new(Default::default());
 }
 
 /// open finding (DESIGN.md 8.4): a content that some node serves, or that was acknowledged, is in NO node's Raft log
@@ -158,12 +174,18 @@ pub fn run_case(case: &Case, work: &Path, seed: u64) -> CaseReport {
         }
     };
     SUSPECTS.with(|s| s.borrow_mut().clear());
+    REFUSED.with(|s| s.borrow_mut().clear());
+    DISPUTED_KEYS.with(|s| s.borrow_mut().clear());
+    WRITTEN_AFTER_FREEZE.with(|s| s.borrow_mut().clear());
     let mut r = run_case_inner(case, &mut c);
     let suspects: Vec<String> = SUSPECTS.with(|s| s.borrow().clone());
     if matches!(r.verdict, Verdict::Violation(_)) && !suspects.is_empty() && is_open("C06", KNOWN_NOT_IN_LOG) && std::env::var("RNV_C06_STRICT").is_err() {
         // evidence, not a guess: stop the nodes and read their logs
         c.shutdown();
-        let mut all_absent = true;
+        // the finding is about writes that were ANSWERED WITH SUCCESS (or whose answer got lost) and are in no log; a
+        // content whose write was refused with an error and that is served nevertheless is a different defect
+        let refused: std::collections::BTreeSet<String> = REFUSED.with(|s| s.borrow().clone());
+        let mut all_absent = !suspects.iter().any(|x| refused.contains(x) || c.nudges_refused.contains(x));
         for sct in &suspects {
             match in_some_log(&c, sct) {
                 Ok(false) => {}
@@ -173,6 +195,14 @@ pub fn run_case(case: &Case, work: &Path, seed: u64) -> CaseReport {
         if all_absent {
             r.labels.push("known_content_in_no_log".into());
             r.verdict = Verdict::Known(KNOWN_NOT_IN_LOG.into());
+        }
+    }
+    if matches!(r.verdict, Verdict::Violation(_)) && is_open("C06", KNOWN_FROZEN) && std::env::var("RNV_C06_STRICT").is_err() {
+        let disputed: Vec<usize> = DISPUTED_KEYS.with(|s| s.borrow().clone());
+        let after: std::collections::BTreeSet<usize> = WRITTEN_AFTER_FREEZE.with(|s| s.borrow().clone());
+        if !disputed.is_empty() && disputed.iter().all(|k| after.contains(k)) {
+            r.labels.push("known_divergence_after_leader_freeze".into());
+            r.verdict = Verdict::Known(KNOWN_FROZEN.into());
         }
     }
     if std::env::var("RNV_KEEP_WORK").is_ok() && matches!(r.verdict, Verdict::Violation(_)) {
@@ -234,6 +264,13 @@ fn run_case_inner(case: &Case, c: &mut Cluster) -> CaseReport {
                     (c.remove(nd, t, g, d), 0)
                 };
                 let acked = matches!(res, Ok(true));
+                if !acked && seq > 0 && matches!(res, Ok(false)) {
+                    // answered with an error (a transport error / time-out is "answer lost", not a refusal)
+                    REFUSED.with(|s| s.borrow_mut().insert(content(k, seq)));
+                }
+                if !frozen_as_leader.is_empty() {
+                    WRITTEN_AFTER_FREEZE.with(|s| s.borrow_mut().insert(k));
+                }
                 let via = frozen_as_leader.contains(&nd);
                 if via && acked {
                     labels.insert("acknowledged_write_through_a_thawed_former_leader".into());
@@ -321,6 +358,7 @@ fn run_case_inner(case: &Case, c: &mut Cluster) -> CaseReport {
                 });
                 std::thread::sleep(Duration::from_millis(1500));
                 frozen_as_leader.insert(l);
+                WRITTEN_AFTER_FREEZE.with(|s| s.borrow_mut().insert(k));
                 c.sigstop(l);
                 for f in &followers {
                     c.sigcont(*f);
@@ -413,6 +451,10 @@ fn run_case_inner(case: &Case, c: &mut Cluster) -> CaseReport {
     if (0..3).any(|i| c.metrics(i).map(|m| m["state"] == "NonVoter").unwrap_or(false)) {
         labels.insert("observed_restarted_node_reporting_nonvoter".into());
     }
+    if !frozen_as_leader.is_empty() {
+        // sentinel writes went on after the freeze
+        WRITTEN_AFTER_FREEZE.with(|s| s.borrow_mut().insert(99));
+    }
     // a violation that involves a write acknowledged by a just-thawed former leader is the recorded open finding
     let known_for_key = |k: usize, attempts: &Vec<Attempt>| -> bool { attempts.iter().any(|a| a.key == k && a.acked && a.via_thawed_leader) };
     // the sentinel writes of the harness (one fresh key each) are ordinary log entries: all nodes agree on them too
@@ -427,6 +469,7 @@ fn run_case_inner(case: &Case, c: &mut Cluster) -> CaseReport {
         for nd in 1..3 {
             if views[nd] != views[0] {
                 let diff: Vec<String> = views[0].iter().filter(|(k, v)| views[nd].get(*k) != Some(*v)).map(|(k, v)| format!("{}: node1={:?} node{}={:?}", k, v, nd + 1, views[nd].get(k))).take(6).collect();
+                DISPUTED_KEYS.with(|s| s.borrow_mut().push(99));
                 for (k, v) in views[0].iter() {
                     if views[nd].get(k) != Some(v) {
                         for x in [v.clone(), views[nd].get(k).cloned().flatten()].into_iter().flatten() {
@@ -470,6 +513,7 @@ fn run_case_inner(case: &Case, c: &mut Cluster) -> CaseReport {
                     }
                 }
                 let _ = known_for_key(k, &attempts);
+                DISPUTED_KEYS.with(|s| s.borrow_mut().push(k));
             }
             return CaseReport::violation(labels.into_iter().collect(), true, format!("nodes settled on different contents for key {} ({:?}): {:?}; {:?}; ops on the key: {:?}; panics / dead actors in the node logs: {:?}", k, KEYS[k], vals, hs, trail, (0..3).map(|nd| c.log_alarms(nd)).collect::<Vec<_>>()));
         }
@@ -492,6 +536,7 @@ fn run_case_inner(case: &Case, c: &mut Cluster) -> CaseReport {
                     suspect(content(k, ka[i].seq));
                 }
             }
+            DISPUTED_KEYS.with(|s| s.borrow_mut().push(k));
             return CaseReport::violation(
                 labels.into_iter().collect(),
                 true,
@@ -515,6 +560,7 @@ fn run_case_inner(case: &Case, c: &mut Cluster) -> CaseReport {
                 for a in ka.iter().filter(|a| a.acked && a.seq > 0) {
                     if !h.contains(&content(k, a.seq)) {
                         suspect(content(k, a.seq));
+                        DISPUTED_KEYS.with(|s| s.borrow_mut().push(k));
                         return CaseReport::violation(
                             labels.into_iter().collect(),
                             true,
